@@ -578,6 +578,10 @@ func TestCallerBuffersUntouched(t *testing.T) {
 			state = ws.StateClientSide
 		}
 		rec := tx.NewRec()
+		if rapid.IntRange(0, 3).Draw(t, "destFails") == 0 {
+			// the destination fails one of the writes: the caller's bytes must be intact all the same
+			rec.FailAt, rec.Short = rapid.IntRange(0, 1).Draw(t, "failAt"), rapid.IntRange(0, 3).Draw(t, "short")
+		}
 		hx.Eval()
 		hx.Class(api)
 		if n >= 8 {
@@ -585,6 +589,9 @@ func TestCallerBuffersUntouched(t *testing.T) {
 		}
 		// wire check helper: exactly the frames' unmasked payloads must equal orig
 		wirePayload := func() []byte {
+			if rec.FailAt >= 0 {
+				return orig // a failing destination received a torn stream: only the caller's slice is judged
+			}
 			fs, rest, err := ref.ParseFrames(rec.Bytes())
 			if err != nil || len(rest) != 0 {
 				t.Fatalf("%s: destination bytes do not parse into frames: %v", api, err)
@@ -600,7 +607,7 @@ func TestCallerBuffersUntouched(t *testing.T) {
 		}
 		switch api {
 		case "WriteMessage":
-			if err := wsutil.WriteMessage(rec, state, ws.OpBinary, p); err != nil {
+			if err := wsutil.WriteMessage(rec, state, ws.OpBinary, p); err != nil && rec.FailAt < 0 {
 				t.Fatal(err)
 			}
 		case "WriteClientMessage":
@@ -613,19 +620,19 @@ func TestCallerBuffersUntouched(t *testing.T) {
 			wsutil.WriteServerMessage(rec, ws.OpBinary, p)
 		case "Writer.WriteThrough":
 			w := wsutil.NewWriterSize(rec, state, ws.OpBinary, rapid.SampledFrom([]int{16, 128, 4096}).Draw(t, "wsize"))
-			if _, err := w.WriteThrough(p); err != nil {
+			if _, err := w.WriteThrough(p); err != nil && rec.FailAt < 0 {
 				t.Fatal(err)
 			}
 		case "Writer.Write+scribble+Flush":
 			w := wsutil.NewWriterSize(rec, state, ws.OpBinary, rapid.SampledFrom([]int{16, 128, 4096, 8192}).Draw(t, "wsize"))
-			if _, err := w.Write(p); err != nil {
+			if _, err := w.Write(p); err != nil && rec.FailAt < 0 {
 				t.Fatal(err)
 			}
 			if !bytes.Equal(p, orig) {
 				t.Fatalf("Writer.Write modified the caller's slice")
 			}
 			scribble(p)
-			if err := w.Flush(); err != nil {
+			if err := w.Flush(); err != nil && rec.FailAt < 0 {
 				t.Fatal(err)
 			}
 			if got := wirePayload(); !bytes.Equal(got, orig) {
@@ -638,11 +645,14 @@ func TestCallerBuffersUntouched(t *testing.T) {
 			cw := wsutil.NewCipherWriter(rec, key)
 			pre := make([]byte, off)
 			cw.Write(pre)
-			if _, err := cw.Write(p); err != nil {
+			if _, err := cw.Write(p); err != nil && rec.FailAt < 0 {
 				t.Fatal(err)
 			}
 			if !bytes.Equal(p, orig) {
 				t.Fatalf("CipherWriter.Write modified the caller's slice")
+			}
+			if rec.FailAt >= 0 {
+				return
 			}
 			want := append(ref.Mask(pre, key, 0), ref.Mask(orig, key, int64(off))...)
 			if !bytes.Equal(rec.Bytes(), want) {
@@ -660,7 +670,8 @@ func TestCallerBuffersUntouched(t *testing.T) {
 			case "MaskFrameWith":
 				out = ws.MaskFrameWith(f, key)
 			default:
-				f.Header.Masked, f.Header.Mask = true, key
+				// the header may or may not say "masked": the copying helper copies either way
+				f.Header.Masked, f.Header.Mask = rapid.Bool().Draw(t, "inputMasked"), key
 				out = ws.UnmaskFrame(f)
 			}
 			if !bytes.Equal(p, orig) {
@@ -673,6 +684,11 @@ func TestCallerBuffersUntouched(t *testing.T) {
 			scribble(p)
 			if !bytes.Equal(out.Payload, want) {
 				t.Fatalf("%s result aliases the caller's payload (changed when the caller reused its slice)", api)
+			}
+			copy(p, orig)
+			scribble(out.Payload)
+			if !bytes.Equal(p, orig) {
+				t.Fatalf("%s: writing to the returned payload changed the caller's slice (the result aliases its argument)", api)
 			}
 			return
 		}
@@ -688,6 +704,44 @@ func TestCallerBuffersUntouched(t *testing.T) {
 			t.Fatalf("%s: the caller's slice (len %d cap %d) changed during later, unrelated client writes: the library kept or pooled it: %x… -> %x…", api, len(p), cap(p), head(orig), head(p))
 		}
 	})
+}
+
+// TestLibraryBuiltBodiesAreFresh: close bodies and frames built by the library
+// are the caller's to modify (masking in place is the documented use): a later
+// call must not see those modifications, and the precompiled frames stay intact.
+func TestLibraryBuiltBodiesAreFresh(t *testing.T) {
+	compiled := map[string][]byte{"ping": ws.CompiledPing, "pong": ws.CompiledPong, "close": ws.CompiledClose, "close1000": ws.CompiledCloseNormalClosure,
+		"close1001": ws.CompiledCloseGoingAway, "close1002": ws.CompiledCloseProtocolError, "close1011": ws.CompiledCloseInternalServerError}
+	snap := map[string]string{}
+	for k, v := range compiled {
+		snap[k] = string(v)
+	}
+	n := 0
+	for _, code := range []ws.StatusCode{1000, 1001, 1002, 1003, 1007, 1008, 1009, 1010, 1011, 3000, 4999} {
+		for _, reason := range []string{"", "bye", strings.Repeat("r", 123)} {
+			for round := 0; round < 3; round++ {
+				n++
+				want := append([]byte{byte(code >> 8), byte(code)}, reason...)
+				body := ws.NewCloseFrameBody(code, reason)
+				if !bytes.Equal(body, want) {
+					hx.Failf(t, map[string]interface{}{"code": code, "reason_len": len(reason), "round": round}, "NewCloseFrameBody(%d, %d-byte reason) = %x in round %d (an earlier result was masked in place by its owner)", code, len(reason), body, round)
+					return
+				}
+				hx.NonTrivial(hx.Hash("closebody", int(code), len(reason), round), func() interface{} {
+					return map[string]interface{}{"api": "NewCloseFrameBody+MaskFrameInPlace", "code": int(code), "reason_len": len(reason), "round": round}
+				})
+				f := ws.MaskFrameInPlaceWith(ws.NewCloseFrame(body), [4]byte{0xa5, 0x5a, 0xff, byte(round + 1)}) // what a client does before sending
+				_ = f
+			}
+		}
+	}
+	for k, v := range compiled {
+		if string(v) != snap[k] {
+			hx.Failf(t, k, "ws.Compiled frame %q changed: %x -> %x", k, snap[k], v)
+			return
+		}
+	}
+	hx.EvalN(n)
 }
 
 func head(p []byte) []byte {
